@@ -136,11 +136,11 @@ def outTotal (μ : A → M) : Option (List (K × A)) → M
 def tablesTotal (μ : A → M) (ts : List (Table K A)) : M := (ts.map fun t => tot μ t.entries).sum
 
 /-- **the specification of the totals**, written from the property text: walk the history keeping, per reader, the sum
-    of everything recorded since that reader's previous collect (`pend`) and the sum of everything recorded so far
+    of the weights `w key value` of everything recorded since that reader's previous collect (`pend`) and the sum of everything recorded so far
     (`all`); a delta reader's collect must report `pend r` (and starts a new interval), a cumulative reader's `all`. -/
-def specTotals (c : Cfg K A V) (w : V → M) : (Nat → M) → M → List (Op K V) → List (Nat × M)
+def specTotals (c : Cfg K A V) (w : K → V → M) : (Nat → M) → M → List (Op K V) → List (Nat × M)
   | _, _, [] => []
-  | pend, all, Op.record _ v :: ops => specTotals c w (fun r => pend r + w v) (all + w v) ops
+  | pend, all, Op.record k v :: ops => specTotals c w (fun r => pend r + w k v) (all + w k v) ops
   | pend, all, Op.collect r :: ops =>
     (r, if c.temps[r]? = some Temporality.delta then pend r else all) ::
       specTotals c w (fun r' => if r' = r then 0 else pend r') all ops
@@ -365,7 +365,7 @@ theorem sinv_collect (hiter : ∀ l, (c.iter l).Perm l) {s : Store K A} {pend : 
 theorem run_totals (hiter : ∀ l, (c.iter l).Perm l) (ops : List (Op K V)) :
     ∀ (s : Store K A) (pend : Nat → M) (all : M), SInv c ms s pend all →
       (∀ r, Op.collect r ∈ ops → r < c.temps.length) →
-      ((Store.run c s ops).2.map fun o => (o.1, outTotal ms.μ o.2)) = specTotals c ms.w pend all ops := by
+      ((Store.run c s ops).2.map fun o => (o.1, outTotal ms.μ o.2)) = specTotals c (fun _ => ms.w) pend all ops := by
   induction ops with
   | nil => intro s pend all _ _; simp [Store.run, specTotals]
   | cons op ops ih =>
